@@ -202,6 +202,8 @@ class C19(Check):
             return None                        # outside the property's quantifier: only the correspondence is checked
         if d["kind"] == "tri" and d["uplo"] == FULL:
             return None                        # define_triangle has no FULL
+        if obs.startswith("<impl"):
+            return ("crash", "the run of the real code stopped before or at this case: " + obs[:80])
         if not obs.startswith("rc=0 "):
             return ("rc", "constructor failed on a valid tile: " + obs[:60])
         try:
